@@ -222,6 +222,11 @@ impl Sut {
         if starknet {
             b.with_default_plugin_suite(cairo_lang_starknet::starknet_plugin_suite());
         }
+        // Projects whose (never edited) cairo_project.toml carries the marker get the executable
+        // plugin. The decision must not depend on files the simulated editor or disk faults touch.
+        if std::fs::read_to_string(root.join("cairo_project.toml")).map(|s| s.contains("verif-plugin: executable")).unwrap_or(false) {
+            b.with_default_plugin_suite(cairo_lang_executable_plugin::executable_plugin_suite());
+        }
         let mut db = b.build().map_err(|e| format!("db build: {e}"))?;
         init_dev_corelib(&mut db, corelib_path());
         let main = setup_project(&mut db, root).map_err(|e| format!("setup_project: {e:?}"))?;
